@@ -531,7 +531,8 @@ def shards(tier, seed):
     consts = ["Int", "Real", "Plus1", "Times1"]
     for first in consts if deep else consts[:3]:
         add(f"sym-const-{first}", ops=consts, plan=[first, "free"] + (["free"] if deep else []), lits="sym", leaves=["n"], max_lits=4)
-    add("sym-const-again", ops=consts, plan=["free", "again"] + (["again"] if deep else []), lits="sym", leaves=["n"], max_lits=4)
+    add("sym-const-again", ops=consts, plan=["free", "again"] + (["again"] if deep else []), lits="sym", leaves=["n"], max_lits=4,
+        forms=["int", "frac2"] if deep else None)
     for nm, ops, forms in (("le-ge-int", ["LE", "GE"], ["int"]), ("le-ge-frac2", ["LE", "GE"], ["frac2"]), ("lt-gt-frac4", ["GT", "LT"], ["frac4"]),
                            ("lt-gt-int", ["LT", "GT"], ["int"]), ("eq-le-int", ["Equals", "LE"], ["int"]), ("eq-ge-frac2", ["EqIffN", "GE"], ["frac2"]),
                            ("infix-int", ["ige", "ile", "LE"], ["int"]), ("infix-frac2", ["igt", "ilt", "mEquals"], ["frac2"]),
